@@ -32,7 +32,7 @@ def main():
             seed = seed.rstrip('/')
             meta = json.load(open(os.path.join(seed, 'meta.json')))
             patch = os.path.abspath(os.path.join(seed, 'patch.diff'))
-            native = bool(re.search(r'\.(pyx|pxi|pxd|h)\b', open(patch).read()))
+            native = bool(re.search(r'\.(pyx|pxi|pxd|h|hpp|cpp)\b', open(patch).read()))
             rc0, out0 = demo(WT, seed)
             r = sh(['git', 'apply', patch], cwd=WT)
             if r.returncode != 0:
